@@ -23,7 +23,7 @@ RULE = (
 ASSUMPTIONS = [
     "freshness is decided as 'the registered RNG / key generator is consulted once per file / per ECC block and its output is what is used'; entropy of os.urandom is out of scope",
 ]
-REQUIRED_CLASSES = ["agree.blocks>=2", "agree.keyless", "agree.ecc", "splice.body=K1", "splice.body=K2", "splice.ecc", "passthrough.unopened>=1", "history.writes>=2", "history.keyless>=2"]
+REQUIRED_CLASSES = ["agree.blocks>=2", "agree.keyless", "agree.ecc", "splice.body=K1", "splice.body=K2", "splice.ecc", "passthrough.unopened>=1", "passthrough.unopened-ends00", "history.writes>=2", "history.keyless>=2"]
 
 B2 = sut.B2
 
@@ -174,6 +174,8 @@ def check_passthrough(case, rec):
     if [t for t, _ in hb1] != [t for t, _ in hb2]:
         raise Violation("block order/tags changed on rewrite: %r -> %r" % ([t for t, _ in hb1], [t for t, _ in hb2]))
     for i in unopened:
+        if hb1[i][1].endswith(b"\x00"):
+            rec.cls("passthrough.unopened-ends00")
         if hb1[i] != hb2[i]:
             raise Violation("unopened block %d (tag %d) not kept byte for byte: %s -> %s" % (i, hb1[i][0], hb1[i][1].hex(), hb2[i][1].hex()))
     key = case["key"]
@@ -232,16 +234,17 @@ class History:
                 raise Violation("Bec2File(session_key=...) drew random bytes")
             if bytes(bec.session_key) != key:
                 raise Violation("supplied session key not used")
-        self.files.append((bec, blocks, keyless))
+        writers = [e for e in (sut.mk_encryptor(b) for b in blocks) if e is not None]
+        self.files.append((bec, blocks, writers))
 
     def op_write(self, i):
         if not self.files:
             return
-        bec, blocks, _ = self.files[i % len(self.files)]
+        bec, blocks, writers = self.files[i % len(self.files)]
         before = len(self.r.scalars)
         key_before = bytes(bec.session_key)
         try:
-            binary = bec.to_binary([e for e in (sut.mk_encryptor(b) for b in blocks) if e is not None])
+            binary = bec.to_binary(writers)  # the SAME encryptor objects on every write of this file
         except Exception as e:
             raise Violation("to_binary raised %s: %s" % (type(e).__name__, e))
         self.writes += 1
@@ -318,8 +321,24 @@ def strat_passthrough(draw, tier="quick"):
         blocks.append(dict(kind="upd", code=draw(st.binary(min_size=8, max_size=8)), version=draw(st.integers(0, 255))))
         openable = [len(blocks) - 1]
     sub = sorted(draw(st.lists(st.sampled_from(openable), min_size=1, unique=True)))
-    return dict(comments=[], comps=draw(st.lists(st.one_of(S.plain_component(60), S.enc_component(60)), max_size=2)), blocks=blocks, open=sub,
-                key=draw(S.session_key(allow_default=False).filter(any)))
+    key = draw(S.session_key(allow_default=False).filter(any))
+    if draw(st.booleans()):
+        # construct: an unopened update/customer-key block whose stored bytes END IN 00 (a pass-through that trims or re-encodes shows only there)
+        for i, b in enumerate(blocks):
+            if i in sub or b["kind"] == "ecc":
+                continue
+            for t in range(4096):
+                if b["kind"] == "upd":
+                    cand = dict(b, code=b["code"][:6] + t.to_bytes(2, "big"))
+                    val = M.update_block(cand["code"], key, cand["version"])
+                else:
+                    cand = dict(b, crypto_key=b["crypto_key"][:14] + t.to_bytes(2, "big"))
+                    val = M.custkey_block(cand["crypto_key"], key, cand.get("customer_key"), 0)
+                if val.endswith(b"\x00"):
+                    blocks[i] = cand
+                    break
+            break
+    return dict(comments=[], comps=draw(st.lists(st.one_of(S.plain_component(60), S.enc_component(60)), max_size=2)), blocks=blocks, open=sub, key=key)
 
 
 def parts(tier):
@@ -329,7 +348,7 @@ def parts(tier):
         Part("splice", check=check_splice, strategy=lambda t: strat_splice(t), quick=(16, 80), thorough=(16, 1200)),
         Part("passthrough", check=check_passthrough, strategy=lambda t: strat_passthrough(t), quick=(16, 60), thorough=(16, 1000)),
         Part("history", driver=History,
-             rules={"create": dict(keyless=st.booleans(), key=_key16, blocks=blocks), "write": dict(i=st.integers(0, 7))},
+             rules={"create": dict(keyless=st.booleans(), key=_key16, blocks=blocks), "write": (dict(i=st.integers(0, 7)), lambda d: len(d.files) > 0)},
              quick=(16, 25), thorough=(16, 300), steps=(12, 30)),
         Part("realrng", bulk=bulk_realrng, quick=(1, 0), thorough=(4, 0)),
     ]
